@@ -440,10 +440,42 @@ def parseParams (W : World N V T) (s : Sig N V T) (o : Opts) (args : List V) (kw
     | .error e => .error e
     | .ok kw' => .ok (args', kw')
 
-/-- `sync_call` (func.py:961-978) for a function without a reserved first parameter, up to the entry of the body -/
+/-- names of the positional-or-keyword fields that the given arguments bind by position (func.py:627-634) -/
+def boundNames (W : World N V T) : List (Param N V T) → List V → List N
+  | p :: ps, _ :: as => if !W.priv p.name && !p.posOnly then p.name :: boundNames W ps as else boundNames W ps as
+  | _, _ => []
+
+/-- func.py:627-642 (fix C06-dup-positional-keyword): a keyword that `get_field` maps — under any spelling the field
+accepts — to a field already bound by position: Python's "got multiple values for argument", raised before anything
+is parsed -/
+def dupBound (W : World N V T) (s : Sig N V T) (args : List V) (kw : List (N × V)) : Bool :=
+  kw.any fun e =>
+    match resolve W (s.fields W) e.1 with
+    | some f => (boundNames W s.pos args).contains f.name
+    | none => false
+
+/-- how `parse_params` / `get_params` fail -/
+inductive PErr where
+  | perr                             -- a ParseError
+  | tyerr                            -- the bare TypeError of the duplicate check
+  deriving Repr, DecidableEq
+
+/-- `parse_params` with its duplicate check in front -/
+def parseParamsD (W : World N V T) (s : Sig N V T) (o : Opts) (args : List V) (kw : List (N × V)) :
+    Except PErr (List V × List (N × V)) :=
+  if dupBound W s args kw then .error .tyerr
+  else match parseParams W s o args kw with
+    | .error _ => .error .perr
+    | .ok x => .ok x
+
+def PErr.outcome : PErr → Outcome N V
+  | .perr => .perr
+  | .tyerr => .tyerr
+
+/-- `sync_call` (func.py:978-995) for a function without a reserved first parameter, up to the entry of the body -/
 def call (W : World N V T) (s : Sig N V T) (o : Opts) (args : List V) (kw : List (N × V)) : Outcome N V :=
-  match parseParams W s o args kw with
-  | .error _ => .perr
+  match parseParamsD W s o args kw with
+  | .error e => e.outcome
   | .ok (args', kw') =>
     match pyBindCore s args' kw' with
     | none => .tyerr
@@ -474,7 +506,7 @@ then — for a method of a class decorated as a whole — the first argument mus
 classmethod) of that class: otherwise InvalidInstance / InvalidSubclass, both ParseErrors, before the function is
 called.  `full` is the declared signature, first parameter included. -/
 def getParams (W : World N V T) (c : Ctx) (full : Sig N V T) (o : Opts) (args : List V) (kw : List (N × V)) :
-    Except Err (List V × List (N × V)) :=
+    Except PErr (List V × List (N × V)) :=
   match firstReserve c full, full.pos with
   | true, r :: ps =>
     let s : Sig N V T := { full with pos := ps }
@@ -485,12 +517,12 @@ def getParams (W : World N V T) (c : Ctx) (full : Sig N V T) (o : Opts) (args : 
       | [] => match kw.lookup r.name with
         | some v => (v, [], kw.filter (fun e => e.1 != r.name))
         | none => (W.noneV, [], kw)
-    match parseParams W s o args1 kw1 with
+    match parseParamsD W s o args1 kw1 with
     | .error e => .error e
     | .ok (args', kw') =>
       if c.fromClass && !W.isInst first then .error .perr
       else .ok (first :: args', kw')
-  | _, _ => parseParams W full o args kw
+  | _, _ => parseParamsD W full o args kw
 
 /-- `func(*args, **kwargs)` (func.py:978) -/
 def rawCall (full : Sig N V T) (ak : List V × List (N × V)) : Outcome N V :=
@@ -502,7 +534,7 @@ def rawCall (full : Sig N V T) (ak : List V × List (N × V)) : Outcome N V :=
 def callDecl (W : World N V T) (c : Ctx) (full : Sig N V T) (o : Opts) (args : List V) (kw : List (N × V)) :
     Outcome N V :=
   match getParams W c full o args kw with
-  | .error _ => .perr
+  | .error e => e.outcome
   | .ok ak => rawCall full ak
 
 /-! ### the result (func.py:721-730, 979-981) -/
@@ -541,7 +573,7 @@ def callR (W : World N V T) (c : Ctx) (full : Sig N V T) (o : Opts) (ret : Optio
 
 /-- calling a decorated coroutine function: either an exception right at the call, or an awaitable with its outcome -/
 inductive CoroRet (N V : Type) where
-  | raisedAtCall
+  | raisedAtCall (e : PErr)
   | awaited (r : Ret N V)
   deriving Repr, DecidableEq
 
@@ -551,7 +583,7 @@ nothing happens before the await -/
 def coroCall (eager : Bool) (W : World N V T) (c : Ctx) (full : Sig N V T) (o : Opts) (ret : Option T)
     (body : Binding N V → V) (args : List V) (kw : List (N × V)) : CoroRet N V :=
   match getParams W c full o args kw with
-  | .error _ => if eager then .raisedAtCall else .awaited .perr
+  | .error e => if eager then .raisedAtCall e else .awaited (finish W ret body e.outcome)
   | .ok ak => .awaited (finish W ret body (rawCall full ak))
 
 /-! ### generators as Mealy machines (func.py:732-927) -/
